@@ -38,7 +38,7 @@ func (n *HTTPPostNode) Build(h *pipeline.HTTPPostNode) (ast.Node, error) {
 	}
 	sort.Strings(headers)
 	for _, k := range headers {
-		n.Dot("header", k, h.Headers[k])
+		n.DotZeroValueOK("header", k, h.Headers[k])
 	}
 
 	return n.prev, n.err
